@@ -7,7 +7,9 @@ namespace Ovld
 
 def natList (j : Json) : Except String (List Nat) := do (← jArr j).toList.mapM jNat
 
-def runGraph (cfg : Cfg) (pool : Array Arg) (defs : Array Def) (ops : Array Json) : Except String Json := do
+/-- `ignoreLocks`: specification mode — every listed operation is one the implementation accepted, so no lock
+    may refuse it; only `expected` (the overlay of the current definitions) is meaningful in this mode -/
+def runGraph (cfg : Cfg) (pool : Array Arg) (defs : Array Def) (ops : Array Json) (ignoreLocks : Bool := false) : Except String Json := do
   let mut g : Graph := {}
   let mut out : Array Json := #[]
   let okJ := Json.mkObj [("o", Json.arr #[Json.str "ok"])]
@@ -17,6 +19,8 @@ def runGraph (cfg : Cfg) (pool : Array Arg) (defs : Array Def) (ops : Array Json
   for op in ops do
     let a ← jArr op
     let kind ← jStr a[0]!
+    if ignoreLocks then
+      g := { nodes := g.nodes.map (fun x => { x with locked := false }) }
     if kind == "create" then
       g := g.create (← natList a[1]!) (← jBool a[2]!)
       out := out.push okJ
